@@ -50,14 +50,22 @@ Fixpoint data_eqb (a b : data) : bool :=
 Record cond := { c_type : N; c_status : N; c_obsgen : N;
                  c_ok : bool }.   (* type, status, reason and message are all strings (template_reconciler.go:392-398) *)
 
+(** The package-operator.run/cache label of an object. The cache informers select on exactly
+    package-operator.run/cache=True (cmd/package-operator-manager/components/components.go:155): an object
+    that carries the key with any other value ("true", "False", "", ...) is as invisible as one without it. *)
+Inductive label := LAbsent | LTrue | LOther (v : N).
+
 Record obj := {
   o_data : data;
-  o_label : bool;          (* carries package-operator.run/cache=True, i.e. is visible to the dynamic cache *)
+  o_lbl : label;           (* the cache label *)
   o_ctrl : N;              (* controller owner reference: 0 none, 1 the ObjectTemplate, anything else: somebody else *)
   o_gen : N;               (* metadata.generation *)
   o_sobs : option N;       (* status.observedGeneration *)
   o_conds : list cond      (* status.conditions *)
 }.
+
+(** visible to the dynamic cache *)
+Definition o_label (o : obj) : bool := match o_lbl o with LTrue => true | _ => false end.
 
 Definition store := list (key * obj).
 
@@ -140,17 +148,21 @@ Section Model.
     w_store : store;
     w_tmpl : option tmpl;
     w_watch : list (N * N);        (* Cache.informerReferences: (kind, owner) *)
-    w_env : N                      (* environment handed to the sink *)
+    w_env : N;                     (* environment handed to the sink *)
+    w_pending : bool               (* a reconcile request for the template sits in the work queue (enqueued by a source event) *)
   }.
 
   Definition with_store (w : world) (st : store) : world :=
-    {| w_store := st; w_tmpl := w_tmpl w; w_watch := w_watch w; w_env := w_env w |}.
+    {| w_store := st; w_tmpl := w_tmpl w; w_watch := w_watch w; w_env := w_env w; w_pending := w_pending w |}.
   Definition with_tmpl (w : world) (t : option tmpl) : world :=
-    {| w_store := w_store w; w_tmpl := t; w_watch := w_watch w; w_env := w_env w |}.
+    {| w_store := w_store w; w_tmpl := t; w_watch := w_watch w; w_env := w_env w; w_pending := w_pending w |}.
   Definition with_watch (w : world) (wl : list (N * N)) : world :=
-    {| w_store := w_store w; w_tmpl := w_tmpl w; w_watch := wl; w_env := w_env w |}.
+    {| w_store := w_store w; w_tmpl := w_tmpl w; w_watch := wl; w_env := w_env w; w_pending := w_pending w |}.
   Definition with_env (w : world) (e : N) : world :=
-    {| w_store := w_store w; w_tmpl := w_tmpl w; w_watch := w_watch w; w_env := e |}.
+    {| w_store := w_store w; w_tmpl := w_tmpl w; w_watch := w_watch w; w_env := e; w_pending := w_pending w |}.
+
+  Definition with_pending (w : world) (b : bool) : world :=
+    {| w_store := w_store w; w_tmpl := w_tmpl w; w_watch := w_watch w; w_env := w_env w; w_pending := b |}.
 
   Definition set_invalid (t : tmpl) (i : N) : tmpl :=
     {| t_ns := t_ns t; t_sources := t_sources t; t_code := t_code t; t_gen := t_gen t; t_fin := t_fin t;
@@ -212,8 +224,9 @@ Section Model.
 
   (** ** Sources *)
 
+  (** AddDynamicCacheLabel (controllers.go:219-239): labels[cache] = "True", whatever was there, sent as a merge patch *)
   Definition set_label (o : obj) : obj :=
-    {| o_data := o_data o; o_label := true; o_ctrl := o_ctrl o; o_gen := o_gen o; o_sobs := o_sobs o; o_conds := o_conds o |}.
+    {| o_data := o_data o; o_lbl := LTrue; o_ctrl := o_ctrl o; o_gen := o_gen o; o_sobs := o_sobs o; o_conds := o_conds o |}.
 
   Inductive sres := SrcErr (notfound : bool) | SrcSkip | SrcFound (o : obj).
 
@@ -322,11 +335,11 @@ Section Model.
     else copy_conds_loop (o_gen ex) (o_conds ex) (t_conds t).
 
   Definition new_target (body : data) : obj :=
-    {| o_data := body; o_label := true; o_ctrl := me; o_gen := 1; o_sobs := None; o_conds := [] |}.
+    {| o_data := body; o_lbl := LTrue; o_ctrl := me; o_gen := 1; o_sobs := None; o_conds := [] |}.
   (** client.Update with the rendered object: body replaced, owner references, labels and annotations of
       the existing object kept (:116-121); the rendered object has no status. *)
   Definition updated_target (ex : obj) (body : data) : obj :=
-    {| o_data := body; o_label := true; o_ctrl := o_ctrl ex;
+    {| o_data := body; o_lbl := LTrue; o_ctrl := o_ctrl ex;
        o_gen := if data_eqb (o_data ex) body then o_gen ex else o_gen ex + 1;
        o_sobs := None; o_conds := [] |}.
 
@@ -394,22 +407,23 @@ Section Model.
   (** ** Histories *)
 
   Inductive step :=
-  | SPut (k : key) (d : data) (lbl : bool)       (* third party creates the object (with / without cache label) or edits its data *)
+  | SPut (k : key) (d : data) (lbl : label)      (* third party creates the object (with this cache label) or edits its data *)
   | SDel (k : key)                               (* third party deletes the object *)
   | SPoke (k : key) (sobs : option N) (cs : list cond)   (* somebody writes the object's status *)
   | SEdit (srcs : list source) (c : code)        (* the user edits the ObjectTemplate's spec *)
   | STDel                                        (* the user deletes the ObjectTemplate *)
   | SEnv (e : N)                                 (* the environment manager hands a new environment to the sink *)
-  | SPass.                                       (* one Reconcile of the ObjectTemplate *)
+  | SPass                                        (* one Reconcile of the ObjectTemplate, whatever triggered it *)
+  | SDrain.                                      (* the controller's worker: a Reconcile iff a request is pending *)
 
   Inductive sobs := OPass (r : pres) | OEnq (b : bool) | ONone.
 
-  Definition new_obj (d : data) (lbl : bool) : obj :=
-    {| o_data := d; o_label := lbl; o_ctrl := 0; o_gen := 1; o_sobs := None; o_conds := [] |}.
+  Definition new_obj (d : data) (lbl : label) : obj :=
+    {| o_data := d; o_lbl := lbl; o_ctrl := 0; o_gen := 1; o_sobs := None; o_conds := [] |}.
   Definition edit_obj (o : obj) (d : data) : obj :=
-    {| o_data := d; o_label := o_label o; o_ctrl := o_ctrl o; o_gen := o_gen o + 1; o_sobs := o_sobs o; o_conds := o_conds o |}.
+    {| o_data := d; o_lbl := o_lbl o; o_ctrl := o_ctrl o; o_gen := o_gen o + 1; o_sobs := o_sobs o; o_conds := o_conds o |}.
   Definition poke_obj (o : obj) (sobs : option N) (cs : list cond) : obj :=
-    {| o_data := o_data o; o_label := o_label o; o_ctrl := o_ctrl o; o_gen := o_gen o; o_sobs := sobs; o_conds := cs |}.
+    {| o_data := o_data o; o_lbl := o_lbl o; o_ctrl := o_ctrl o; o_gen := o_gen o; o_sobs := sobs; o_conds := cs |}.
 
   (** EnqueueWatchingObjects.enqueueWatchers (enqueue_watching.go:77-104) behind an informer that only
       sees labelled objects: the ObjectTemplate is enqueued iff the event is visible and the template is
@@ -417,18 +431,23 @@ Section Model.
   Definition enqueued (w : world) (kind : N) (visible : bool) : bool :=
     visible && watched kind me (w_watch w).
 
+  Definition is_true_label (l : label) : bool := match l with LTrue => true | _ => false end.
+
+  (** a source event that enqueues the template leaves a request in the queue *)
+  Definition note (w : world) (b : bool) : world * sobs := (with_pending w (w_pending w || b), OEnq b).
+
   Definition do_step (w : world) (s : step) : world * sobs :=
     match s with
     | SPut k d lbl =>
         match lookup k (w_store w) with
-        | None => (with_store w (upsert k (new_obj d lbl) (w_store w)), OEnq (enqueued w (k_kind k) lbl))
-        | Some o => if data_eqb (o_data o) d then (w, OEnq false)
-                    else (with_store w (upsert k (edit_obj o d) (w_store w)), OEnq (enqueued w (k_kind k) (o_label o)))
+        | None => note (with_store w (upsert k (new_obj d lbl) (w_store w))) (enqueued w (k_kind k) (is_true_label lbl))
+        | Some o => if data_eqb (o_data o) d then note w false
+                    else note (with_store w (upsert k (edit_obj o d) (w_store w))) (enqueued w (k_kind k) (o_label o))
         end
     | SDel k =>
         match lookup k (w_store w) with
-        | None => (w, OEnq false)
-        | Some o => (with_store w (remove k (w_store w)), OEnq (enqueued w (k_kind k) (o_label o)))
+        | None => note w false
+        | Some o => note (with_store w (remove k (w_store w))) (enqueued w (k_kind k) (o_label o))
         end
     | SPoke k so cs =>
         match lookup k (w_store w) with
@@ -447,7 +466,8 @@ Section Model.
                     else (with_tmpl w None, ONone)
         end
     | SEnv e => (with_env w e, ONone)
-    | SPass => let '(w', r) := pass w in (w', OPass r)
+    | SPass => let '(w', r) := pass w in (with_pending w' false, OPass r)      (* the pass serves the pending request *)
+    | SDrain => if w_pending w then let '(w', r) := pass w in (with_pending w' false, OPass r) else (w, ONone)
     end.
 
   Fixpoint run (w : world) (ss : list step) : list (sobs * world) :=
